@@ -77,10 +77,14 @@ func genC11(d *Draw) Case {
 	if startDef {
 		// the start event carries an event definition of its own (it is triggered explicitly all the same): it is
 		// one more consumer in front of the catch events, and one that has nothing to say once it has fired
+		// (a signal / message of its own that is never delivered: an instance started explicitly AND by its
+		// event would rightly run twice)
 		if d.Bool() {
-			st.StartDefs = []EventDef{{Kind: "signal", Ref: "sX"}}
+			st.StartDefs = []EventDef{{Kind: "signal", Ref: "sStart"}}
+			defs.Signals = append(defs.Signals, "sStart")
 		} else {
-			st.StartDefs = []EventDef{{Kind: "message", Ref: "mX"}}
+			st.StartDefs = []EventDef{{Kind: "message", Ref: "mStart"}}
+			defs.Messages = append(defs.Messages, "mStart")
 		}
 	}
 	var used []string
